@@ -2065,6 +2065,13 @@ def rf171(run):
         dest, ln = F.src(F.strip(a[0])), F.strip(a[2])
         ln_src = F.src(ln)
         sized = 'curr_item->' in ln_src or (ln['k'] == 'DeclRefExpr' and ln['n'] in item_locals)
+        # … and it is the very amount by which the placement pointer advances in the same branch
+        par = f.parent_of(x)
+        while par is not None and par['k'] != 'CompoundStmt':
+            par = f.parent_of(par)
+        adv = [F.src(F.strip(y['c'][1])) for y in (F.walk(par) if par is not None else []) if y['k'] == 'CompoundAssignOperator' and y['op'] == '+='
+               and F.src(F.strip(y['c'][0])) == dest]
+        sized = sized and ln_src in adv
         at_ptr = F.strip(a[0])['k'] == 'DeclRefExpr' and F.strip(a[0]).get('dk') == 'local'
         ok = sized and at_ptr
         n += 1
